@@ -12,6 +12,7 @@
 # (duplicates, generated-name collisions, keywords, digit-leading, method names, trailing underscore, equal-but-
 # distinct items); the size of the pre-state is bounded (B).
 import copy
+import os
 import pickle
 from dataclasses import dataclass
 from keyword import iskeyword
@@ -220,3 +221,93 @@ def equality_is_item_equality(n):
     H.check("C09,C16:lists-of-equal-items-are-equal", H.And(a == same, not (a != same)))
     H.check("C09,C16:lists-with-a-differing-item-of-the-same-name-are-unequal", H.And(not (a == other), a != other))
     H.check("C09,C16:lists-of-different-length-are-unequal", not (a == shorter))
+
+
+# ---- frame obligation (syntactic, over the working tree): a named item list is only changed through the operations
+# ---- that are under contract
+import ast  # noqa: E402
+
+from pyvc import static_checks  # noqa: E402
+from pyvc.static_checks import repo_py_files, static  # noqa: E402
+
+_INHERITED_MUTATORS = ("__iadd__", "__imul__", "__setitem__", "__delitem__", "sort", "reverse")
+
+
+def _terminal_name(node):
+    if isinstance(node, ast.Attribute):
+        return node.attr
+    if isinstance(node, ast.Name):
+        return node.id
+    return None
+
+
+def _mentions_named_list(node):
+    """the expression denotes the class itself (`NamedItemList`, `NamedItemList[T]`, `Optional[NamedItemList[T]]`),
+    not a container of named lists"""
+    if isinstance(node, ast.Name):
+        return node.id in ("NamedItemList", "ItemAttributeList")
+    if isinstance(node, ast.Subscript):
+        if isinstance(node.value, ast.Name) and node.value.id == "Optional":
+            return _mentions_named_list(node.slice)
+        return _mentions_named_list(node.value)
+    if isinstance(node, ast.Constant) and isinstance(node.value, str):
+        return node.value.startswith(("NamedItemList", "ItemAttributeList"))
+    return False
+
+
+def _named_list_names(trees):
+    """Names under which the package holds named item lists: targets assigned from NamedItemList(...), names and
+    fields annotated NamedItemList[...], properties and functions declared to return one."""
+    names = set()
+    for tree in trees.values():
+        for n in ast.walk(tree):
+            if isinstance(n, ast.Assign) and isinstance(n.value, ast.Call) and _mentions_named_list(n.value.func):
+                names.update(filter(None, (_terminal_name(t) for t in n.targets)))
+            elif isinstance(n, ast.AnnAssign) and _mentions_named_list(n.annotation):
+                names.add(_terminal_name(n.target))
+            elif isinstance(n, (ast.FunctionDef, ast.AsyncFunctionDef)) and _mentions_named_list(n.returns):
+                names.add(n.name)
+    names.discard(None)
+    return names
+
+
+@static("C16")
+def named_lists_are_changed_only_through_contracted_operations(tier):
+    """One obligation per module of odxtools/**: the list operations that ItemAttributeList inherits from `list`
+    without keeping the name view (`+=`, `*=`, item and slice assignment, `del x[i]`, sort, reverse) are not applied to
+    anything the package holds as a named item list.  The per-operation contracts only speak about append, insert,
+    extend, remove, pop, clear and the copies; this is their frame.  An operation that the class overrides is not
+    flagged (its contract would then be the place to judge it)."""
+    trees = {p: ast.parse(open(p).read()) for p in repo_py_files()}
+    overridden = set()
+    for p, tree in trees.items():
+        if p.endswith("nameditemlist.py"):
+            for n in ast.walk(tree):
+                if isinstance(n, ast.ClassDef) and n.name == "ItemAttributeList":
+                    overridden = {f.name for f in n.body if isinstance(f, ast.FunctionDef)}
+    unsafe = [m for m in _INHERITED_MUTATORS if m not in overridden]
+    names = _named_list_names(trees)
+    out = []
+    for p, tree in trees.items():
+        rel = os.path.relpath(p, static_checks.REPO)
+        bad = []
+        for n in ast.walk(tree):
+            if isinstance(n, ast.AugAssign) and _terminal_name(n.target) in names:
+                op = "__iadd__" if isinstance(n.op, ast.Add) else "__imul__" if isinstance(n.op, ast.Mult) else None
+                if op in unsafe:
+                    bad.append((n.lineno, f"{_terminal_name(n.target)} {op}"))
+            elif isinstance(n, ast.AugAssign) and isinstance(n.target, ast.Subscript) and \
+                    _terminal_name(n.target.value) in names and "__setitem__" in unsafe:
+                bad.append((n.lineno, f"{_terminal_name(n.target.value)}[...] augmented"))
+            elif isinstance(n, (ast.Assign, ast.Delete)):
+                for t in n.targets:
+                    if isinstance(t, ast.Subscript) and _terminal_name(t.value) in names:
+                        op = "__setitem__" if isinstance(n, ast.Assign) else "__delitem__"
+                        if op in unsafe:
+                            bad.append((n.lineno, f"{_terminal_name(t.value)}[...] {op}"))
+            elif isinstance(n, ast.Call) and isinstance(n.func, ast.Attribute) and n.func.attr in unsafe and \
+                    _terminal_name(n.func.value) in names:
+                bad.append((n.lineno, f"{_terminal_name(n.func.value)}.{n.func.attr}()"))
+        out.append({"name": f"C16_named-lists-changed-only-through-contracted-operations[{rel}]", "ok": not bad,
+                    "detail": "; ".join(f"line {ln}: {w}" for ln, w in bad)})
+    return out
